@@ -62,6 +62,7 @@ func checkC16(c *core.Ctx) error {
 		}
 		checkEstimator(c, p, d, e)
 	}
+	c.Analysed["closed_form_estimators"] = len(estTable)
 	// ---- R2 the EM / Baum-Welch drivers report and test the likelihood returned by the step of the same iteration
 	c.Rule("C16.R2", "the EM and Baum-Welch drivers hand their hooks the likelihood returned by Step in the same iteration and its difference to the previous one, test convergence on that difference, and only then remember it", 2)
 	if g := c.Pkg("statistics/generic"); g != nil {
